@@ -166,11 +166,11 @@ func c18xrun(intervalMs, k int) string {
 		xmpp.VerifRecv(client, quit)
 	}()
 	returned := true
-	limit := time.After(time.Duration(k+4)*time.Duration(intervalMs)*time.Millisecond + 3*time.Second)
+	deadline := time.Now().Add(time.Duration(k+4)*time.Duration(intervalMs)*time.Millisecond + 3*time.Second)
 	for _, ch := range []chan struct{}{kdone, rdone} {
 		select {
 		case <-ch:
-		case <-limit:
+		case <-time.After(time.Until(deadline)):
 			returned = false
 		}
 	}
